@@ -23,11 +23,11 @@ type tvFrame struct {
 }
 
 type tvPlayback struct {
-	ID     string       `json:"id"`
-	CW     int          `json:"cw"`
-	CH     int          `json:"ch"`
-	Frames []tvFrame    `json:"frames"`
-	Snaps  [][][4]int   `json:"snaps"`
+	ID     string     `json:"id"`
+	CW     int        `json:"cw"`
+	CH     int        `json:"ch"`
+	Frames []tvFrame  `json:"frames"`
+	Snaps  [][][4]int `json:"snaps"`
 }
 
 func pixList(img *image.NRGBA) [][4]int {
